@@ -42,7 +42,7 @@ func scenarioRevokeExpired(ctx *RunCtx) {
 		ctx.AddCase(g.Case("scenario:revoke-expired-access-token/" + fl))
 		if rv.Kind == "Ok" && rf.Kind == "Tokens" {
 			ctx.Meta.Findings = append(ctx.Meta.Findings, Finding{Property: "C05", Signature: "revoke:expired-access-token:refresh-survives",
-				What: "POST /revoke of an access token whose lifetime had elapsed answered 200 and the refresh token of the same grant still produced tokens (" + fl + " storage)",
+				What:   "POST /revoke of an access token whose lifetime had elapsed answered 200 and the refresh token of the same grant still produced tokens (" + fl + " storage)",
 				Replay: map[string]any{"Spec": spec, "Ops": g.Ops, "Obs": g.Obs}})
 		}
 	}
@@ -328,6 +328,154 @@ func scenarioCibaDenialEnds(ctx *RunCtx) {
 	}
 }
 
+func scenarioPkceMatrix(ctx *RunCtx) {
+	for ci, cfg := range pkceConfigs() {
+		for _, par := range []bool{false, true} {
+			fl := []string{"copy", "alias"}[(ci+map[bool]int{false: 0, true: 1}[par])%2]
+			opts := append([]Opt{{Name: "WithScopes", Scopes: serverScopes}, {Name: "WithAuthorizationCodeGrant"},
+				{Name: "WithRefreshTokenGrant", Z: 1000}, {Name: "WithTokenLifetime", Z: 300}}, cfg.Opts...)
+			if par {
+				opts = append(opts, Opt{Name: "WithPAR", Z: 60})
+			}
+			g, err := NewSysGen(ctx.R, WorldSpec{Profile: "openid", Flavour: fl, Static: baseClients(ctx.R), Opts: opts})
+			if err != nil {
+				panic(err)
+			}
+			pol := Pol{Kind: "PolSuccess", Sub: "alice", Granted: "openid email"}
+			v := PK{Kind: 1, N: 1, LenOK: true}
+			for _, client := range []int{1, 3} { // confidential, public
+				redirect := fmt.Sprintf("https://c%d.example/cb", client)
+				scopes := map[int]string{1: "openid email", 3: "openid profile"}[client]
+				pol.Granted = scopes
+				for _, f := range pkceForms(v) {
+					for _, vf := range pkceVerifiers(v, f.Challenge) {
+						p := Params{Redirect: redirect, RespType: "code", Scopes: scopes, State: "st-1", Challenge: f.Challenge, Method: f.Method}
+						var nav Obs
+						if par {
+							pu := g.do(Op{Kind: "Par", Cred: Cred{ID: client, OK: true}, Params: p})
+							if pu.Kind != "Par" {
+								continue
+							}
+							nav = g.do(Op{Kind: "Authorize", Client: client, Params: Params{RequestURI: pu.H, RespType: "code", Scopes: scopes}, PolicyAvail: true, Pol: pol})
+						} else {
+							nav = g.do(Op{Kind: "Authorize", Client: client, Params: p, PolicyAvail: true, Pol: pol})
+						}
+						if nav.Kind != "Nav" || nav.NCode == 0 {
+							break // refused at the authorization endpoint (method not enabled, challenge required): nothing to redeem
+						}
+						g.do(Op{Kind: "Token", Grant: "authorization_code", Cred: Cred{ID: client, OK: true}, Code: nav.NCode, Redirect: redirect, Verifier: vf, HG: "HgOk", BA: "BaApprove"})
+					}
+				}
+			}
+			ctx.AddCase(g.Case(fmt.Sprintf("scenario:pkce-matrix/%s/par=%v/%s", cfg.Name, par, fl)))
+			ctx.AddStats(g.stats)
+		}
+	}
+}
+
+// C04 / grant types and response types: clients whose grant_types and response_types are aligned
+// (c1, c2) and not aligned (misalignedClients: hybrid response types without implicit, implicit without
+// its response types, code response type without authorization_code) x every response type, on servers
+// with both grants, with the code grant only and with the implicit grant only; every code obtained is
+// redeemed, every client tries client_credentials and the refresh of what it got.
+func scenarioGrantTypeMatrix(ctx *RunCtx) {
+	allResp := []string{"code", "token", "id_token", "id_token token", "code id_token", "code token", "code id_token token", "bogus"}
+	servers := [][]Opt{
+		{{Name: "WithAuthorizationCodeGrant"}, {Name: "WithImplicitGrant"}, {Name: "WithRefreshTokenGrant", Z: 1000}, {Name: "WithClientCredentialsGrant"}},
+		{{Name: "WithAuthorizationCodeGrant"}, {Name: "WithRefreshTokenGrant", Z: 1000}},
+		{{Name: "WithImplicitGrant"}, {Name: "WithClientCredentialsGrant"}},
+	}
+	for si, srv := range servers {
+		for _, par := range []bool{false, true} {
+			fl := []string{"copy", "alias"}[(si+map[bool]int{false: 0, true: 1}[par])%2]
+			opts := append([]Opt{{Name: "WithScopes", Scopes: serverScopes}, {Name: "WithTokenIntrospection"}, {Name: "WithTokenLifetime", Z: 300}}, srv...)
+			if par {
+				opts = append(opts, Opt{Name: "WithPAR", Z: 60})
+			}
+			clients := append(baseClients(ctx.R), misalignedClients()...)
+			g, err := NewSysGen(ctx.R, WorldSpec{Profile: "openid", Flavour: fl, Static: clients, Opts: opts})
+			if err != nil {
+				panic(err)
+			}
+			for _, c := range clients {
+				if c.Public && c.ID == 3 {
+					continue
+				}
+				cred := Cred{ID: c.ID, OK: !c.Public}
+				if c.Public {
+					cred.OK = true
+				}
+				redirect := c.Redirects[0]
+				pol := Pol{Kind: "PolSuccess", Sub: "alice", Granted: "openid"}
+				for _, rt := range allResp {
+					p := Params{Redirect: redirect, RespType: rt, Scopes: "openid", State: "st-1", Nonce: "n-1"}
+					var nav Obs
+					if par {
+						pu := g.do(Op{Kind: "Par", Cred: cred, Params: p})
+						if pu.Kind != "Par" {
+							continue
+						}
+						nav = g.do(Op{Kind: "Authorize", Client: c.ID, Params: Params{RequestURI: pu.H, RespType: rt, Scopes: "openid"}, PolicyAvail: true, Pol: pol})
+					} else {
+						nav = g.do(Op{Kind: "Authorize", Client: c.ID, Params: p, PolicyAvail: true, Pol: pol})
+					}
+					if nav.Kind == "Nav" && nav.NAt != 0 {
+						g.do(Op{Kind: "Introspect", Cred: Cred{ID: 1, OK: true}, Tok: PTok{Kind: "PExact", H: nav.NAt}, Allowed: true})
+					}
+					if nav.Kind == "Nav" && nav.NCode != 0 {
+						tok := g.do(Op{Kind: "Token", Grant: "authorization_code", Cred: cred, Code: nav.NCode, Redirect: redirect, HG: "HgOk", BA: "BaApprove"})
+						if tok.Kind == "Tokens" && tok.Rt != 0 && rt == "code" {
+							g.do(Op{Kind: "Token", Grant: "refresh_token", Cred: cred, Refresh: tok.Rt, HG: "HgOk", BA: "BaApprove"})
+						}
+					}
+				}
+				g.do(Op{Kind: "Token", Grant: "client_credentials", Cred: cred, Scope: "email", HG: "HgOk", BA: "BaApprove"})
+			}
+			ctx.AddCase(g.Case(fmt.Sprintf("scenario:grant-type-matrix/server=%d/par=%v/%s", si, par, fl)))
+			ctx.AddStats(g.stats)
+		}
+	}
+}
+
+func pkceConfigs() []pkceCfg {
+	return []pkceCfg{
+		{"pkce-off", nil},
+		{"S256-only", []Opt{{Name: "WithPKCE", S: "S256"}}},
+		{"plain-only", []Opt{{Name: "WithPKCE", S: "plain"}}},
+		{"S256-default+plain", []Opt{{Name: "WithPKCE", S: "S256", L: []string{"plain"}}}},
+		{"plain-default+S256", []Opt{{Name: "WithPKCE", S: "plain", L: []string{"S256"}}}},
+		{"required-S256-only", []Opt{{Name: "WithPKCERequired", S: "S256"}}},
+		{"required-plain-default+S256", []Opt{{Name: "WithPKCERequired", S: "plain", L: []string{"S256"}}}},
+	}
+}
+
+// the forms a client whose verifier is v can put its challenge in
+func pkceForms(v PK) []pkceForm {
+	return []pkceForm{
+		{"S256-named", PK{Kind: 2, Inner: &v}, "S256"},
+		{"plain-named", v, "plain"},
+		{"method-omitted/thumbprint", PK{Kind: 2, Inner: &v}, ""},
+		{"method-omitted/verbatim", v, ""},
+		{"no-challenge", PK{}, ""},
+	}
+}
+
+// verifiers for a challenge ch made from v
+func pkceVerifiers(v, ch PK) []PK {
+	return []PK{v, ch, {Kind: 1, N: v.N + 5, LenOK: true}, {Kind: 1, N: v.N + 6, LenOK: false}, {}}
+}
+
+type pkceCfg struct {
+	Name string
+	Opts []Opt
+}
+
+type pkceForm struct {
+	Name      string
+	Challenge PK
+	Method    string
+}
+
 func init() {
 	register(&Suite{Name: "c05", Run: func(ctx *RunCtx) {
 		scenarioRevokeExpired(ctx)
@@ -341,9 +489,9 @@ func init() {
 	histSuite("c02", "mon_C02", "authorization requests (GET and POST; plain and pushed) over redirect_uri variants (exact, prefix/suffix/case/port/scheme/userinfo/percent-encoding variations, pushed-unregistered URIs replayed in plain requests, outer/inner disagreement, absent) crossed with error-producing parameters, response modes and policy outcomes; sequences with pushed unregistered redirect URIs followed by ordinary requests",
 		140, 5000, 34, map[string]bool{"par": true, "implicit": true},
 		map[string]int{"authorize": 34, "callback": 16, "par": 16, "code": 6, "refresh": 1, "cc": 1, "query": 3, "tick": 5, "bc": 1, "poll": 1, "notify": 1}, 45)
-	histSuite("c03", "mon_C03", "interleaved authorizations for several clients/users, redemptions by the right or another client with right/wrong/absent redirect_uri and code_verifier (both methods), ticks across the 60 s code lifetime, replays, then uses of the resulting tokens",
+	histSuite("c03", "mon_C03x", "scenario matrix: every PKCE configuration (off, each method alone, both with either default, required) x challenge forms (method named S256 / plain, method left out with the challenge made for S256 / for plain, none) x verifiers (pre-image, the challenge string itself, wrong, too short, absent), direct and through a pushed request; then interleaved authorizations for several clients/users, redemptions by the right or another client with right/wrong/absent redirect_uri and code_verifier (both methods, method named or left to the server's default), ticks across the 60 s code lifetime, replays, then uses of the resulting tokens",
 		120, 4000, 34, map[string]bool{"pkce": true, "refresh": true},
-		map[string]int{"authorize": 20, "callback": 8, "par": 3, "code": 26, "refresh": 8, "cc": 1, "query": 18, "tick": 8, "bc": 1, "poll": 1, "notify": 1}, 35)
+		map[string]int{"authorize": 20, "callback": 8, "par": 3, "code": 26, "refresh": 8, "cc": 1, "query": 18, "tick": 8, "bc": 1, "poll": 1, "notify": 1}, 35, scenarioPkceMatrix)
 	register(&Suite{Name: "c10near", Run: func(ctx *RunCtx) {
 		// refreshes inside the last access-token lifetime before the absolute expiry of the grant, then
 		// just past it: the expiry must not have moved, the token must be refused and the grant removed
@@ -363,7 +511,9 @@ func init() {
 			nav := g.do(Op{Kind: "Authorize", Client: 2, Params: p, PolicyAvail: true, Pol: Pol{Kind: "PolSuccess", Sub: "alice", Granted: "openid email"}})
 			tok := g.do(Op{Kind: "Token", Grant: "authorization_code", Cred: Cred{ID: 2, OK: true}, Code: nav.NCode, Redirect: p.Redirect, HG: "HgOk", BA: "BaApprove"})
 			rt := tok.Rt
-			intro := func() { g.do(Op{Kind: "Introspect", Cred: Cred{ID: 2, OK: true}, Tok: PTok{Kind: "PExact", H: rt}, Allowed: true}) }
+			intro := func() {
+				g.do(Op{Kind: "Introspect", Cred: Cred{ID: 2, OK: true}, Tok: PTok{Kind: "PExact", H: rt}, Allowed: true})
+			}
 			refresh := func() {
 				o := g.do(Op{Kind: "Token", Grant: "refresh_token", Cred: Cred{ID: 2, OK: true}, Refresh: rt, HG: "HgOk", BA: "BaApprove"})
 				if o.Kind == "Tokens" && o.Rt != 0 {
@@ -399,7 +549,7 @@ func init() {
 	histSuite("c17", "mon_C17", "interleavings of several users' and clients' interactive flows with multi-step policies (succeed, fail, abandoned), ticks across the session timeout, stale/foreign/unknown callback ids, flows started from pushed requests",
 		120, 4000, 36, map[string]bool{"par": true},
 		map[string]int{"authorize": 26, "callback": 30, "par": 10, "code": 8, "refresh": 2, "cc": 1, "query": 8, "tick": 9, "bc": 1, "poll": 1, "notify": 1}, 30, scenarioSessionDeadline)
-	histSuite("c04flow", "mon_C04", "histories over all grant types with requested scope sub/supersets, refresh chains, introspection and userinfo of every token",
-		80, 3000, 36, map[string]bool{"refresh": true, "implicit": true},
-		map[string]int{"authorize": 14, "callback": 6, "par": 3, "code": 16, "refresh": 18, "cc": 8, "query": 20, "tick": 3, "bc": 4, "poll": 6, "notify": 2}, 30, scenarioGrantedSubset)
+	histSuite("c04flow", "mon_C04x", "scenario matrix: clients with aligned and NOT aligned grant_types / response_types (hybrid response types without implicit, implicit without its response types, code response type without authorization_code) x every response type x servers with both grants / code only / implicit only, direct and pushed, every code redeemed; then histories over all grant types (the same clients included) with requested scope sub/supersets, refresh chains, introspection and userinfo of every token",
+		80, 3000, 36, map[string]bool{"refresh": true, "implicit": true, "misaligned": true},
+		map[string]int{"authorize": 14, "callback": 6, "par": 3, "code": 16, "refresh": 18, "cc": 8, "query": 20, "tick": 3, "bc": 4, "poll": 6, "notify": 2}, 30, scenarioGrantTypeMatrix, scenarioGrantedSubset)
 }
